@@ -28,8 +28,8 @@ ASSUMPTIONS = [
     "one user measure per type (with the default thresholds a second measure is never evaluated by the package)",
     "comparisons within 1e-9 (relative) of a threshold or of a tie are not judged",
 ]
-BUDGET = {"quick": 1600, "thorough": 20000}
-DEADLINE_S = {"quick": 230, "thorough": 2800}
+BUDGET = {"quick": 1600, "thorough": 60000}
+DEADLINE_S = {"quick": 230, "thorough": 3300}
 
 
 def strategy(tier):
